@@ -34,6 +34,7 @@ type c06Case struct {
 	UnkBody  int           `json:"unkbody,omitempty"`  // body of the unknown-type packet: 0 = 8 bytes, 1 = empty (packet length exactly 64), 2 = 1 KiB; 3 = empty body AND foreign set id; 4 = shaped like a recovery packet body (exponent 7 + one slice of bytes)
 	VolCore  int           `json:"volcore"`            // 0 full core packets, 1 creator only, 2 creator+main, 3 core packets after the recovery packets
 	Subdir   bool          `json:"subdir,omitempty"`   // protected files live in sub-directories
+	NamePair int           `json:"namepair,omitempty"` // 1..: the two protected files carry names that are string prefixes of one another / differ in one separator character
 	LongName int           `json:"longname,omitempty"` // protected file 1 lives N directories deep (40-byte components): the stored relative name exceeds 255 bytes for N>=7
 	RecvRev  bool          `json:"recvrev,omitempty"`  // recovery packets in descending order, duplicated
 	Big      int           `json:"big,omitempty"`      // 0: tiny files; 1, 2: files above 16 KiB (17000 and 16500 bytes, slice 500), generation Big-1 of the content beyond the first 16 KiB
@@ -178,6 +179,10 @@ func c06Alternatives(allPerms bool) []func(*c06Case) {
 		alts = append(alts, func(c *c06Case) { c.VolCore = vc })
 	}
 	alts = append(alts, func(c *c06Case) { c.Subdir = true })
+	for k := 1; k <= len(c06NamePairs); k++ {
+		k := k
+		alts = append(alts, func(c *c06Case) { c.NamePair = k })
+	}
 	for _, ln := range []int{3, 6, 7, 12, 24} {
 		ln := ln
 		alts = append(alts, func(c *c06Case) { c.LongName = ln })
@@ -287,6 +292,9 @@ func c06Run(ci interface{}, r *core.Rec) {
 	names := []string{"f0", "f1"}
 	if c.Subdir {
 		names = []string{"sub/f0", "sub/deeper/f 1"}
+	}
+	if c.NamePair > 0 {
+		names = c06NamePairs[c.NamePair-1]
 	}
 	if c.LongName > 0 {
 		n := ""
@@ -647,11 +655,15 @@ func c06Run(ci interface{}, r *core.Rec) {
 
 func forSubsetsIdx(n, k int, f func([]int)) { forCombos(n, k, f) }
 
+// c06NamePairs: protected file names that are string prefixes of one another (in both list orders), or equal up to
+// the separator character.
+var c06NamePairs = [][]string{{"x.tar", "x.tar.gz"}, {"sub/report.txt", "sub/report"}, {"notes", "notes.bak"}, {"a", "a b"}, {"sub/f", "sub.f"}}
+
 func init() {
 	core.Register(&core.Prop{
 		ID:    "C06",
 		Level: "model_checking",
-		Rule: "(later rounds added: recovery blocks stored in several volume files; the double check as a dimension of its own; unknown packet types that resemble the standard ones; creator client ids of 1..61 bytes; the decoder protocol search with faults over a foreign layout; the foreign set verified by itself afterwards) bounded-exhaustive layouts from the reference writer, on real directories through the exported API: the default layout, EVERY single deviation (all 719 packet-group permutations of the index, duplication of each packet, every exponent subset of {0,1,2,5,9,100,2000} of size<=4, 1-3 volume files, 6 volume-name families incl. spaces and glob metacharacters, 9 base names incl. [ ] * ? \\ and non-ASCII, a foreign-set packet at each position, an unknown-type packet at each position (8-byte, empty and 1 KiB bodies; empty-bodied foreign-set packet), volumes with full / creator-only / creator+main / trailing core packets, sub-directory file names, names nested 3-24 directories deep (relative names of 120-980 bytes with 40-byte components), reversed+duplicated recovery packets, 6 damage patterns, goroutines), and all PAIRS of deviations (quick: reduced permutation list; thorough: all permutations, plus all triples over the reduced list). " +
+		Rule: "(later rounds added: recovery blocks stored in several volume files; the double check as a dimension of its own; unknown packet types that resemble the standard ones; creator client ids of 1..61 bytes; the decoder protocol search with faults over a foreign layout; the foreign set verified by itself afterwards) bounded-exhaustive layouts from the reference writer, on real directories through the exported API: the default layout, EVERY single deviation (all 719 packet-group permutations of the index, duplication of each packet, every exponent subset of {0,1,2,5,9,100,2000} of size<=4, 1-3 volume files, 6 volume-name families incl. spaces and glob metacharacters, 9 base names incl. [ ] * ? \\ and non-ASCII, a foreign-set packet at each position, an unknown-type packet at each position (8-byte, empty and 1 KiB bodies; empty-bodied foreign-set packet), volumes with full / creator-only / creator+main / trailing core packets, sub-directory file names, 5 pairs of names that are prefixes of one another, names nested 3-24 directories deep (relative names of 120-980 bytes with 40-byte components), reversed+duplicated recovery packets, 6 damage patterns, goroutines), and all PAIRS of deviations (quick: reduced permutation list; thorough: all permutations, plus all triples over the reduced list). " +
 			"Oracle: counts equal gopar's own canonical set for the same data and damage and equal the reference (all intact blocks found); Repair succeeds whenever every K-subset of the stored exponents is non-singular by the reference. non-trivial = damaged scenario repaired",
 		Assumptions: []string{"layouts stay inside the statement's envelope: index without recovery packets and starting with an own-set packet, creator packet in every file, ASCII file names, no non-recovery-set files"},
 		NewCase:     func() interface{} { c := c06Default(); return &c },
